@@ -90,12 +90,114 @@ def full_range_index(crate, body_name, term):
     return bool(nodes) and all((n["idx"].get("ty") or "").endswith("std::ops::RangeFull") for n in nodes)
 
 
+def _peel(e):
+    while e and e.get("k") in ("AddrOf", "Deref", "Paren") or (e and e.get("k") == "Unary" and e.get("op") == "*"):
+        e = e.get("e")
+    return e
+
+
+def _int_lit(e):
+    e = _peel(e)
+    while e and e.get("k") == "Cast":
+        e = _peel(e.get("e"))
+    return e.get("v") if e and e.get("k") == "Lit" and isinstance(e.get("v"), int) and not isinstance(e.get("v"), bool) else None
+
+
+def slice_len(b, at, e, depth=0):
+    """The statically known length of the slice expression `e` evaluated at node `at` of body `b`, or None.
+    Only immutable locals are followed (a binding that is never assigned / mutably borrowed)."""
+    if depth > 6:
+        return None
+    e = _peel(e)
+    if e is None:
+        return None
+    if e.get("k") == "Index" and (e.get("idx") or {}).get("k") == "Struct":
+        pass
+    if e.get("k") == "Index":
+        idx = e.get("idx") or {}
+        ty = idx.get("ty") or ""
+        flds = {f_.get("name"): f_.get("e") for f_ in (idx.get("fields") or [])}
+        base = slice_len(b, at, e.get("base"), depth + 1)
+        if ty.endswith("RangeTo<usize>") and _int_lit(flds.get("end")) is not None and base is not None and _int_lit(flds.get("end")) <= base:
+            return _int_lit(flds.get("end"))
+        if ty.endswith("RangeFrom<usize>") and _int_lit(flds.get("start")) is not None and base is not None and _int_lit(flds.get("start")) <= base:
+            return base - _int_lit(flds.get("start"))
+        if ty.endswith("RangeFull"):
+            return base
+        return None
+    if e.get("k") != "Path" or e.get("res") != "local":
+        return None
+    hid = e.get("hid")
+    if hid in _assigned_locals(b["hir"]):
+        return None
+    # (1) a guard on the path to `at`: `<local>.len() == N`
+    def conj(c):
+        return conj(c["l"]) + conj(c["r"]) if c.get("k") == "Binary" and c.get("op") == "&&" else [c]
+
+    def eq_len(c):
+        for c_ in conj(c):
+            if c_.get("k") == "Binary" and c_.get("op") == "==":
+                for l_, r_ in ((c_["l"], c_["r"]), (c_["r"], c_["l"])):
+                    l0 = _peel(l_)
+                    if l0 and l0.get("k") == "MethodCall" and l0.get("name") == "len" and (l0.get("callee") or "").endswith(("<impl [T]>::len", "Vec::len")) and _int_lit(r_) is not None:
+                        lr = _peel(l0.get("recv"))
+                        if lr and lr.get("k") == "Path" and lr.get("hid") == hid:
+                            return _int_lit(r_)
+        return None
+    for node, ps in common.hir_walk_p(b["hir"]):
+        if node is at:
+            for p_ in ps:
+                if p_.get("k") == "Match":
+                    for a in p_["arms"]:
+                        if a.get("guard") and any(x is at for x in common.hir_walk(a["body"])) and eq_len(a["guard"]) is not None:
+                            return eq_len(a["guard"])
+                    sc = _peel(p_.get("scrut"))
+                    if sc and sc.get("k") == "MethodCall" and sc.get("name") == "len" and (_peel(sc.get("recv")) or {}).get("hid") == hid:
+                        for a in p_["arms"]:
+                            if a["pat"].get("k") == "Expr" and isinstance(a["pat"]["e"].get("v"), int) and any(x is at for x in common.hir_walk(a["body"])):
+                                return a["pat"]["e"]["v"]
+                if p_.get("k") == "If" and p_["c"].get("k") != "LetCond" and any(x is at for x in common.hir_walk(p_["t"])) and eq_len(p_["c"]) is not None:
+                    return eq_len(p_["c"])
+            break
+    # (3) the element parameter of a closure driven by `x.chunks_exact(k)` / `x.windows(k)` (every element has length k)
+    for node, ps in common.hir_walk_p(b["hir"]):
+        if node.get("k") == "Closure" and len(node.get("params") or []) == 1 and node["params"][0].get("k") == "Binding" and node["params"][0].get("hid") == hid and ps:
+            par = ps[-1]
+            if par.get("k") == "MethodCall" and par.get("name") in ("all", "any", "map", "for_each", "filter", "filter_map", "find", "find_map", "position", "try_for_each", "flat_map", "take_while", "skip_while", "inspect"):
+                src = _peel(par.get("recv"))
+                while src and src.get("k") == "MethodCall" and src.get("name") in ("rev", "skip", "take", "step_by", "by_ref", "peekable"):
+                    src = _peel(src.get("recv"))
+                if src and src.get("k") == "MethodCall" and src.get("name") in ("chunks_exact", "windows", "rchunks_exact") and (src.get("callee") or "").startswith("core::slice::") \
+                        and _int_lit((src.get("args") or [None])[0]):
+                    return _int_lit(src["args"][0])
+            return None
+    # (2) bound by `let (a, b) = x.split_at(k)` / `let a = <slice expr>`
+    for node in common.hir_walk(b["hir"]):
+        if node.get("k") == "Let" and node.get("init") is not None and node.get("els") is None:
+            pat = node["pat"]
+            init = _peel(node["init"])
+            if pat.get("k") == "Binding" and pat.get("hid") == hid and not pat.get("mut"):
+                return slice_len(b, node["init"], node["init"], depth + 1)
+            if pat.get("k") == "Tuple" and len(pat.get("pats") or []) == 2 and init and init.get("k") == "MethodCall" and init.get("name") in ("split_at",) \
+                    and "str" not in (init.get("callee") or ""):
+                for i_, sp_ in enumerate(pat["pats"]):
+                    if sp_.get("k") == "Binding" and sp_.get("hid") == hid and not sp_.get("mut"):
+                        k_ = _int_lit((init.get("args") or [None])[0])
+                        whole = slice_len(b, init, init.get("recv"), depth + 1)
+                        if k_ is None or whole is None or k_ > whole:
+                            return None
+                        return k_ if i_ == 0 else whole - k_
+    return None
+
+
 def std_position_ok(crate, body_name, callee, term):
     """A position-taking std call that cannot panic by construction:
        chunks* / windows / step_by with a non-zero literal size; Vec::insert(0, _); a position that is the literal 0 for
        split_at / rotate; split_at(k) of an immutable local slice under a `len == N` / `len >= N` guard with N >= k; copy_from_slice / clone_from_slice into a fixed-size array under a `len == N` test of the source
        (decided on the HIR call node at the same source line)."""
     b = crate.bodies.get(body_name) or {}
+    if "hir" not in b and "::{closure" in body_name:
+        b = crate.bodies.get(body_name.split("::{closure")[0]) or {}      # a closure's expressions are in its parent's HIR
     last = callee.split("::")[-1]
     line = term.get("sp")
     nodes = [n for n in common.hir_walk(b.get("hir") or {}) if n.get("k") == "MethodCall" and n.get("name") == last and n.get("sp") == line]
@@ -159,6 +261,10 @@ def std_position_ok(crate, body_name, callee, term):
         if not m:
             return False
         width = int(m.group(1))
+        # the source's length is derivable: a head / tail of an immutable local slice whose length is fixed by the
+        # enclosing `len == N` guard (`x.split_at(k)` -> (k, N - k); `x[..k]` -> k; `x[k..]` -> N - k)
+        if args and slice_len(b, n, args[0]) == width:
+            return True
         # the enclosing arms / ifs test `<src>.len() == width` (match on len with a literal arm, or an == comparison)
         for node, ps in common.hir_walk_p(b["hir"]):
             if node is n:
@@ -217,10 +323,12 @@ def audit(cfg, crate, cname, rep):
         if ent is None and key[2] == "assert:Overflow(Mul)" and all(len_times_small(crate, bn, 1) for bn in sorted({t_[3] for t_ in by_body.get(key, [])})):
             rep.ob("C10.audit", k + "|len-times-constant", True, "overflow check of `<buffer>.len() * c` with c <= 8: an in-memory buffer is far shorter than usize::MAX / 8")
             continue
-        if ent is None and key[2].startswith(("assert:Overflow", "assert:BoundsCheck", "assert:DivisionByZero", "assert:RemainderByZero")):
-            ok_fd, why_fd = finite_discharge(crate, key[1], sorted({t_[3] for t_ in by_body.get(key, [])}), key[2])
+        def _finite():
+            return finite_discharge(crate, key[1], sorted({t_[3] for t_ in by_body.get(key, [])}), key[2])
+        if ent is None and key[2].startswith(("assert:Overflow", "assert:BoundsCheck", "assert:DivisionByZero", "assert:RemainderByZero", "call:")):
+            ok_fd, why_fd = _finite()
             if ok_fd:
-                rep.ob("C10.audit", k + "|finite-domain", True, "arithmetic / bounds check discharged by exhaustive constant propagation: " + why_fd)
+                rep.ob("C10.audit", k + "|finite-domain", True, "panic site discharged by exhaustive constant propagation: " + why_fd)
                 continue
         if ent is None:
             rep.fail("C10.audit", k, "unaudited panic site: %d occurrence(s) of %s in %s; reachable panics must be replaced by an Err return or audited" % (len(ts), key[2], key[1]), sp=ts[0].get("sp"))
@@ -228,6 +336,12 @@ def audit(cfg, crate, cname, rep):
         mx, cls, reason = ent
         rep.ob("C10.audit", k + "|count", len(ts) <= mx, "more panic sites of this kind than were audited", expected="<= %d" % mx, found=len(ts), sp=ts[-1].get("sp"))
         ok, detail = mechanised(cfg, crate, key, cls, ts)
+        if not ok:
+            # the audited idiom is gone: the site may still be provably safe on its (finite) domain
+            ok_fd, why_fd = _finite()
+            if ok_fd:
+                rep.ob("C10.audit", k + "|finite-domain", True, "panic site discharged by exhaustive constant propagation: " + why_fd)
+                continue
         rep.ob("C10.audit", k + "|" + cls, ok, "%s: %s%s" % (cls, reason, ("; " + detail) if detail else ""), sp=ts[0].get("sp"))
     return n
 
@@ -303,7 +417,9 @@ def finite_discharge(crate, owner, body_names, construct):
                 return False, "not evaluable: %s" % e
             why = "%s evaluated for all %d argument tuples without a failing check" % (bn, size)
             continue
-        # (b) expression-level
+        # (b) expression-level (arithmetic / bounds asserts only: a panicking call needs the whole function)
+        if not construct.startswith("assert:"):
+            return False, "%s: not every parameter has a small finite type" % bn
         kind = construct.split(":", 1)[1]
         want_ops = {"Overflow(Add)": "+", "Overflow(Sub)": "-", "Overflow(Mul)": "*", "Overflow(Shl)": "<<", "Overflow(Shr)": ">>", "DivisionByZero": "/", "RemainderByZero": "%", "Overflow(Div)": "/", "Overflow(Rem)": "%", "Overflow(Neg)": "neg"}
         exprs = []
